@@ -457,6 +457,431 @@ def check_ops(rep: vlib.Reporter, rng: random.Random, n: int) -> bool:
 
 
 # ------------------------------------------------------------------------------------------------------------
+# values: ==, _make_hashable, hash definedness
+# ------------------------------------------------------------------------------------------------------------
+EXTRA_VAL = """
+Definition osame (m : option pyval) (o : option pyval) :=
+  match m, o with Some x, Some y => val_same x y | None, None => true | _, _ => false end.
+Definition is_some {A} (o : option A) := match o with Some _ => true | None => false end.
+Definition val_case := ((pyval * pyval) * (bool * option pyval * option pyval * bool * bool))%type.
+Definition chk_val (c : val_case) : bool :=
+  match c with
+  | ((a, b), (oeq, oca, ocb, ha, hb)) =>
+      Bool.eqb (py_eq a b) oeq && osame (canon a) oca && osame (canon b) ocb
+      && Bool.eqb (is_some (hash_key a)) ha && Bool.eqb (is_some (hash_key b)) hb
+  end.
+"""
+
+
+def observe_canon(v: Any) -> Tuple[Optional[str], bool, Optional[int]]:
+    """(_make_hashable(v) as a Coq term or None on TypeError, hash defined?, the hash)"""
+    from mloda.core.abstract_plugins.components.hashable_dict import _make_hashable
+    try:
+        c = _make_hashable(v)
+    except TypeError:
+        return None, False, None
+    try:
+        h: Optional[int] = hash(c)
+    except TypeError:
+        h = None
+    return val_term(c), h is not None, h
+
+
+def check_values(rep: vlib.Reporter, rng: random.Random, n: int) -> bool:
+    from mloda.core.abstract_plugins.components.options import Options
+    found = False
+    terms, descs = [], []
+    stats = {"equal": 0, "equal_nontrivially": 0, "canon_typeerror": 0, "unhashable": 0, "hash_checked": 0, "options_pairs": 0}
+    while len(terms) < n:
+        a = gen_val(rng, 3) if rng.random() < 0.7 else ["D", gen_dict(rng, 2, rng.choice([1, 2, 3]))]
+        b = variant(rng, a) if rng.random() < 0.85 else gen_val(rng, 2)
+        try:
+            pa_, pb = to_py(a), to_py(b)
+            ta, tb = val_term(pa_), val_term(pb)
+        except (Unmodelled, TypeError):
+            continue
+        eq = bool(pa_ == pb)
+        ca, ha, hva = observe_canon(pa_)
+        cb, hb, hvb = observe_canon(pb)
+        if eq:
+            stats["equal"] += 1
+            if ta != tb:
+                stats["equal_nontrivially"] += 1
+                rep.nontrivial(("val", a, b))
+            if ha and hb:
+                stats["hash_checked"] += 1
+                if hva != hvb:
+                    rep.finding("valhash:" + json.dumps([a, b])[:300], "two equal option values hash differently after _make_hashable",
+                                {"kind": "val", "a": a, "b": b})
+                    found = True
+            # the same on Options objects, when both are dictionaries
+            if isinstance(pa_, dict) and isinstance(pb, dict):
+                stats["options_pairs"] += 1
+                oa, ob = Options(group=pa_), Options(group=pb)
+                try:
+                    h1, h2 = hash(oa), hash(ob)
+                    if not (oa == ob) or h1 != h2:
+                        rep.finding("opthash:" + json.dumps([a, b])[:300], "Options with equal group dictionaries are unequal or hash differently",
+                                    {"kind": "val", "a": a, "b": b})
+                        found = True
+                except TypeError:
+                    pass
+        stats["canon_typeerror"] += (ca is None) + (cb is None)
+        stats["unhashable"] += (ca is not None and not ha) + (cb is not None and not hb)
+        terms.append(f"(({ta}, {tb}), ({cq_bool(eq)}, {vlib.cq_opt(ca)}, {vlib.cq_opt(cb)}, {cq_bool(ha)}, {cq_bool(hb)}))")
+        descs.append([a, b])
+    bad, info = vlib.run_cases(P, "values", REQ, "chk_val", terms, extra_defs=EXTRA_VAL, case_type="val_case", shard=300)
+    rep.count(len(terms))
+    rep.add("values", {**info, "pairs": len(terms), **stats, "disagreements": len(bad)})
+    for i in bad[:5]:
+        rep.finding("val:" + json.dumps(descs[i])[:300], "Python == / _make_hashable / hash definedness of an option value differs from the model",
+                    {"kind": "val", "a": descs[i][0], "b": descs[i][1]})
+        found = True
+    rep.sample({"kind": "val", "a": descs[0][0], "b": descs[0][1]})
+    return found
+
+
+# ------------------------------------------------------------------------------------------------------------
+# identities: Feature, Link, Index, SingleFilter
+# ------------------------------------------------------------------------------------------------------------
+REQ_ID = ["MV.Model.Options", "MV.Model.Identity"]
+DTYPES = ["INT32", "INT64", "FLOAT", "DOUBLE", "BOOLEAN", "STRING", "BINARY", "DATE", "TIMESTAMP_MILLIS", "TIMESTAMP_MICROS", "DECIMAL"]
+EXTRA_ID = EXTRA_OPS + """
+Definition is_some {A} (o : option A) := match o with Some _ => true | None => false end.
+Definition oeq_same (m : option bool) (o : option bool) :=
+  match m, o with Some x, Some y => Bool.eqb x y | None, None => true | _, _ => false end.
+Definition feat_case := ((feat * feat) * (option bool * bool * bool))%type.
+Definition chk_feat (c : feat_case) : bool :=
+  match c with ((a, b), (oe, ha, hb)) =>
+    oeq_same (feat_eq a b) oe && Bool.eqb (is_some (feat_hkey a)) ha && Bool.eqb (is_some (feat_hkey b)) hb end.
+Definition link_case := ((plink * plink) * bool)%type.
+Definition chk_link (c : link_case) : bool := Bool.eqb (plink_eq (fst (fst c)) (snd (fst c))) (snd c).
+Definition idx_case := ((list string * list string) * bool)%type.
+Definition chk_idx (c : idx_case) : bool := Bool.eqb (idx_eq (fst (fst c)) (snd (fst c))) (snd c).
+(* (feature, type, params) twice; observed: constructed a, constructed b, eq, hash a defined, hash b defined.
+   inside the known-finding domain (an unhashable parameter value) the hash flag is not compared *)
+Definition sfd := (feat * string * list (pykey * pyval))%type.
+Definition sf_case := ((sfd * sfd) * (bool * bool * option bool * bool * bool))%type.
+Definition kf_unhashable_param (f : sfilter) : bool := negb (forallb (fun kv => hashable (snd kv)) (sf_raw f)).
+Definition chk_sf (c : sf_case) : bool :=
+  match c with ((((fa, ta), pa), ((fb, tb), pb)), (ca, cb, oe, ha, hb)) =>
+    match sf_make fa ta pa, sf_make fb tb pb with
+    | Some a, Some b => ca && cb && oeq_same (sf_eq a b) oe
+                        && (kf_unhashable_param a || Bool.eqb (is_some (sf_hkey a)) ha)
+                        && (kf_unhashable_param b || Bool.eqb (is_some (sf_hkey b)) hb)
+    | Some a, None => ca && negb cb && (kf_unhashable_param a || Bool.eqb (is_some (sf_hkey a)) ha)
+    | None, Some b => negb ca && cb && (kf_unhashable_param b || Bool.eqb (is_some (sf_hkey b)) hb)
+    | None, None => negb ca && negb cb
+    end
+  end.
+"""
+
+_CFW: List[type] = []
+
+
+def cfw_classes() -> List[type]:
+    if not _CFW:
+        from mloda_plugins.compute_framework.base_implementations.pyarrow.table import PyArrowTable
+        from mloda_plugins.compute_framework.base_implementations.pandas.dataframe import PandasDataFrame
+        from mloda_plugins.compute_framework.base_implementations.python_dict.python_dict_framework import PythonDictFramework
+        _CFW.extend([PyArrowTable, PandasDataFrame, PythonDictFramework])
+    return _CFW
+
+
+def gen_feat(rng: random.Random) -> dict:
+    keys = rng.sample(KEYS[:5], 3)
+    o = gen_good_init(rng, keys)
+    o["p"] = []
+    child = None
+    if rng.random() < 0.4:
+        child = gen_good_init(rng, keys)
+        child["p"] = []
+    return {"name": rng.choice(["f", "g"]), "opt": o, "domain": rng.choice([None, None, "d1", "d2"]),
+            "cfw": rng.choice([None, None, [0], [1], [0, 1]]), "dtype": rng.choice([None, None, 1, 3, 5]), "child": child}
+
+
+def feat_variant(rng: random.Random, f: dict) -> dict:
+    g = json.loads(json.dumps(f))
+    r = rng.random()
+    if r < 0.3:
+        pass
+    elif r < 0.38:
+        g["name"] = rng.choice(["f", "g"])
+    elif r < 0.5:
+        g["opt"]["g"] = variant(rng, ["D", f["opt"]["g"]])[1]
+    elif r < 0.62:
+        g["opt"]["c"] = variant(rng, ["D", f["opt"]["c"]])[1] if rng.random() < 0.5 else gen_dict(rng, 1, 1, keys=["zz"])
+    elif r < 0.7:
+        g["domain"] = rng.choice([None, "d1", "d2"])
+    elif r < 0.78:
+        g["cfw"] = rng.choice([None, [0], [1], [1, 0]])
+    elif r < 0.86:
+        g["dtype"] = rng.choice([None, 1, 3])
+    else:
+        g["child"] = None if rng.random() < 0.3 else (f["child"] and {**f["child"], "g": variant(rng, ["D", f["child"]["g"]])[1]}) or gen_good_init(rng, KEYS[:3])
+        if g["child"]:
+            g["child"]["p"] = []
+    # a variant may have created a group/context overlap: reject by construction check
+    try:
+        build_options(g["opt"])
+        if g["child"]:
+            build_options(g["child"])
+    except Exception:  # noqa: BLE001
+        return json.loads(json.dumps(f))
+    return g
+
+
+def build_feat(d: dict) -> Any:
+    from mloda.core.abstract_plugins.components.feature import Feature
+    from mloda.core.abstract_plugins.components.data_types import DataType
+    f = Feature(d["name"], options=build_options(d["opt"]), domain=d["domain"],
+                data_type=None if d["dtype"] is None else DataType[DTYPES[d["dtype"]]])
+    if d["cfw"] is not None:
+        f._set_compute_frameworks({cfw_classes()[i] for i in d["cfw"]})
+    if d["child"] is not None:
+        f.child_options = build_options(d["child"])
+    return f
+
+
+def feat_term(d: dict) -> str:
+    cf = "None" if d["cfw"] is None else f"(Some {cq_list(cq_nat(i) for i in d['cfw'])})"
+    ch = "None" if d["child"] is None else f"(Some (mk_other {init_term(d['child'])}))"
+    return (f"{{| f_name := {cq_str(d['name'])}; f_opt := mk_other {init_term(d['opt'])}; f_domain := {vlib.cq_opt(None if d['domain'] is None else cq_str(d['domain']))}; "
+            f"f_cfw := {cf}; f_dtype := {vlib.cq_opt(None if d['dtype'] is None else cq_nat(d['dtype']))}; f_child := {ch} |}}")
+
+
+def observe_eq_hash(a: Any, b: Any) -> Tuple[Optional[bool], Optional[int], Optional[int], Optional[str]]:
+    """(a == b or None if it raised, hash(a) or None, hash(b) or None, unexpected exception text)"""
+    odd = None
+    try:
+        e: Optional[bool] = bool(a == b)
+    except ValueError:
+        e = None
+    except Exception as ex:  # noqa: BLE001
+        e, odd = None, f"eq: {type(ex).__name__}: {ex}"
+    hs: List[Optional[int]] = []
+    for x in (a, b):
+        try:
+            hs.append(hash(x))
+        except TypeError:
+            hs.append(None)
+        except Exception as ex:  # noqa: BLE001
+            hs.append(None)
+            odd = f"hash: {type(ex).__name__}: {ex}"
+    return e, hs[0], hs[1], odd
+
+
+def opt_b(e: Optional[bool]) -> str:
+    return "None" if e is None else f"(Some {cq_bool(e)})"
+
+
+def check_coherence(rep: vlib.Reporter, what: str, desc: Any, e: Optional[bool], h1: Optional[int], h2: Optional[int],
+                    odd: Optional[str]) -> bool:
+    """the property itself on the implementation: equal objects hash equal"""
+    if odd:
+        rep.finding(f"{what}-odd:" + json.dumps(desc)[:300], f"unexpected exception comparing / hashing {what} objects: {odd}",
+                    {"kind": what, "pair": desc})
+        return True
+    if e and h1 is not None and h2 is not None and h1 != h2:
+        rep.finding(f"{what}-hash:" + json.dumps(desc)[:300], f"two equal {what} objects have different hashes",
+                    {"kind": what, "pair": desc})
+        return True
+    return False
+
+
+def check_ident(rep: vlib.Reporter, rng: random.Random, n: int) -> bool:
+    from mloda.core.abstract_plugins.components.link import Link, JoinSpec, JoinType
+    from mloda.core.abstract_plugins.components.index.index import Index
+    from mloda.core.abstract_plugins.feature_group import FeatureGroup
+    from mloda.core.filter.single_filter import SingleFilter
+    from mloda.core.filter.global_filter import GlobalFilter
+    found = False
+    info_all: Dict[str, Any] = {}
+
+    # ---- Feature
+    terms, descs = [], []
+    st = {"equal": 0, "unequal": 0, "eq_raised": 0, "equal_hash_checked": 0, "unhashable": 0, "context_only_difference": 0}
+    for _ in range(n):
+        fa = gen_feat(rng)
+        fb = feat_variant(rng, fa) if rng.random() < 0.9 else gen_feat(rng)
+        try:
+            a, b = build_feat(fa), build_feat(fb)
+            ta, tb = feat_term(fa), feat_term(fb)
+        except Unmodelled:
+            continue
+        e, h1, h2, odd = observe_eq_hash(a, b)
+        found |= check_coherence(rep, "feature", [fa, fb], e, h1, h2, odd)
+        st["equal" if e else ("eq_raised" if e is None else "unequal")] += 1
+        st["unhashable"] += (h1 is None) + (h2 is None)
+        if e and h1 is not None and h2 is not None:
+            st["equal_hash_checked"] += 1
+            if fa != fb:
+                rep.nontrivial(("feat", fa, fb))
+        if e is False and h1 is not None and h1 == h2 and a.options.context != b.options.context:
+            st["context_only_difference"] += 1
+        terms.append(f"(({ta}, {tb}), ({opt_b(e)}, {cq_bool(h1 is not None)}, {cq_bool(h2 is not None)}))")
+        descs.append([fa, fb])
+    bad, info = vlib.run_cases(P, "feat", REQ_ID, "chk_feat", terms, extra_defs=EXTRA_ID, case_type="feat_case", shard=250)
+    rep.count(len(terms))
+    info_all["feature"] = {**info, "pairs": len(terms), **st, "disagreements": len(bad)}
+    for i in bad[:5]:
+        rep.finding("feat:" + json.dumps(descs[i])[:300], "Feature.__eq__ result / hash definedness differs from the model",
+                    {"kind": "feature", "pair": descs[i]})
+        found = True
+    rep.sample({"kind": "feature", "pair": descs[0]})
+
+    # ---- Link / Index
+    classes = [type(f"K15L{i}", (FeatureGroup,), {}) for i in range(3)]
+    jts = list(JoinType)
+    lt, it, ld = [], [], []
+    lst = {"equal": 0}
+    for _ in range(max(200, n // 4)):
+        def gl() -> dict:
+            return {"jt": rng.randrange(3), "l": rng.randrange(2), "r": rng.randrange(2),
+                    "li": [rng.choice("ab") for _ in range(rng.choice([1, 1, 2]))], "ri": [rng.choice("ab")]}
+        la = gl()
+        lb = dict(la) if rng.random() < 0.4 else gl()
+        A, B = [Link(jts[x["jt"]], JoinSpec(classes[x["l"]], tuple(x["li"])), JoinSpec(classes[x["r"]], tuple(x["ri"]))) for x in (la, lb)]
+        e, h1, h2, odd = observe_eq_hash(A, B)
+        found |= check_coherence(rep, "link", [la, lb], e, h1, h2, odd)
+        lst["equal"] += bool(e)
+        def lterm(x: dict) -> str:
+            return (f"{{| pl_jt := {cq_nat(x['jt'])}; pl_left := {cq_str(classes[x['l']].__name__)}; pl_right := {cq_str(classes[x['r']].__name__)}; "
+                    f"pl_lidx := {cq_list(cq_str(c) for c in x['li'])}; pl_ridx := {cq_list(cq_str(c) for c in x['ri'])} |}}")
+        lt.append(f"(({lterm(la)}, {lterm(lb)}), {cq_bool(bool(e))})")
+        ld.append([la, lb])
+        ia, ib = Index(tuple(la["li"])), Index(tuple(lb["li"]))
+        e2, g1, g2, odd2 = observe_eq_hash(ia, ib)
+        found |= check_coherence(rep, "index", [la["li"], lb["li"]], e2, g1, g2, odd2)
+        it.append(f"(({cq_list(cq_str(c) for c in la['li'])}, {cq_list(cq_str(c) for c in lb['li'])}), {cq_bool(bool(e2))})")
+    bad, info = vlib.run_cases(P, "link", REQ_ID, "chk_link", lt, extra_defs=EXTRA_ID, case_type="link_case")
+    bad2, _ = vlib.run_cases(P, "index", REQ_ID, "chk_idx", it, extra_defs=EXTRA_ID, case_type="idx_case")
+    rep.count(len(lt) + len(it))
+    info_all["link_index"] = {"pairs": len(lt), "equal_links": lst["equal"], "disagreements": len(bad) + len(bad2)}
+    for i in (bad + bad2)[:5]:
+        rep.finding("link:" + json.dumps(ld[i])[:300], "Link / Index __eq__ differs from the model", {"kind": "link", "pair": ld[i]})
+        found = True
+
+    # ---- SingleFilter
+    terms, descs = [], []
+    fst = {"constructed": 0, "equal": 0, "unhashable_parameter": 0, "equal_hash_checked": 0}
+    kf_hit: Optional[dict] = None
+    PK = ["value", "values", "min", "max", "max_exclusive"]
+    for _ in range(n):
+        def gs() -> dict:
+            m = rng.choice([0, 1, 1, 2, 2])
+            def pv() -> Any:
+                r = rng.random()
+                if r < 0.7:
+                    a = gen_atom(rng)
+                    return a if not (isinstance(a, list) and a[0] == "U") else 1
+                if r < 0.82:
+                    return ["T", [rng.choice([1, 2, "a"]) for _ in range(rng.choice([1, 2]))]]
+                return gen_val(rng, 1) if r < 0.9 else ["L", [1, 2]]
+            params = [[rng.choice(PK) if rng.random() < 0.95 else rng.choice([1, None]), pv()] for _ in range(m)]
+            ff = gen_feat(rng)
+            ff["child"] = None
+            return {"feat": ff, "type": rng.choice(["range", "equal", "categorical_inclusion"]), "params": params}
+        sa = gs()
+        sb = json.loads(json.dumps(sa)) if rng.random() < 0.5 else gs()
+        if rng.random() < 0.3:
+            sb["params"] = sb["params"][::-1]
+        objs: List[Any] = []
+        try:
+            tterms = [f"({feat_term(x['feat'])}, {cq_str(x['type'])}, {pairs_term((to_py(k), to_py(v)) for k, v in x['params'])})" for x in (sa, sb)]
+        except Unmodelled:
+            continue
+        for x in (sa, sb):
+            try:
+                objs.append(SingleFilter(build_feat(x["feat"]), x["type"], to_py(["D", x["params"]])))
+            except (ValueError, TypeError):
+                objs.append(None)
+        ca, cb = objs[0] is not None, objs[1] is not None
+        fst["constructed"] += ca + cb
+        e, h1, h2, odd = (None, None, None, None)
+        if ca and cb:
+            e, h1, h2, odd = observe_eq_hash(objs[0], objs[1])
+            found |= check_coherence(rep, "filter", [sa, sb], e, h1, h2, odd)
+            fst["equal"] += bool(e)
+            if e and h1 is not None and h2 is not None:
+                fst["equal_hash_checked"] += 1
+                if sa != sb:
+                    rep.nontrivial(("sf", sa, sb))
+        else:
+            for j, o in enumerate(objs):
+                if o is not None:
+                    try:
+                        hh: Optional[int] = hash(o)
+                    except TypeError:
+                        hh = None
+                    if j == 0:
+                        h1 = hh
+                    else:
+                        h2 = hh
+        for x, o, hh in ((sa, objs[0], h1), (sb, objs[1], h2)):
+            if o is not None and hh is None and any(not is_hashable_desc(v) for _, v in x["params"]) and kf_hit is None:
+                try:
+                    hash(o.filter_feature)
+                    kf_hit = x
+                except TypeError:
+                    pass
+        fst["unhashable_parameter"] += sum(1 for x in (sa, sb) if any(not is_hashable_desc(v) for _, v in x["params"]))
+        terms.append(f"(({tterms[0]}, {tterms[1]}), ({cq_bool(ca)}, {cq_bool(cb)}, {opt_b(e) if (ca and cb) else 'None'}, "
+                     f"{cq_bool(h1 is not None)}, {cq_bool(h2 is not None)}))")
+        descs.append([sa, sb])
+    # chk_sf compares eq only when both constructed; give it the observed eq in that case
+    bad, info = vlib.run_cases(P, "filter", REQ_ID, "chk_sf", terms, extra_defs=EXTRA_ID, case_type="sf_case", shard=200)
+    rep.count(len(terms))
+    info_all["single_filter"] = {**info, "pairs": len(terms), **fst, "disagreements": len(bad)}
+    for i in bad[:5]:
+        rep.finding("sf:" + json.dumps(descs[i])[:300], "SingleFilter construction / __eq__ / hash definedness differs from the model",
+                    {"kind": "filter", "pair": descs[i]})
+        found = True
+    rep.sample({"kind": "filter", "pair": descs[0]})
+
+    # ---- known finding 1: a filter with a list-valued parameter cannot be hashed, GlobalFilter.add_filter raises
+    wit = {"feature": "f", "type": "categorical_inclusion", "parameter": {"values": [1, 2]}}
+    try:
+        GlobalFilter().add_filter(wit["feature"], wit["type"], dict(wit["parameter"]))
+        raised = None
+    except TypeError as ex:
+        raised = str(ex)
+    info_all["kf_filter_unhashable"] = {"witness": wit, "add_filter_raises": raised, "random_case_in_domain": kf_hit is not None}
+    if raised is not None:
+        rep.finding("C15-filter-unhashable-parameter", "GlobalFilter.add_filter with a list-valued parameter raises TypeError: " + raised,
+                    {"kind": "kf_filter", **wit})
+    # ---- known finding 2: equal Features, different hashes (child_options[in_features] = frozenset of Features)
+    w2 = infeatures_witness()
+    info_all["kf_feature_hash_order"] = w2
+    if w2.get("equal") and not w2.get("hash_equal"):
+        rep.finding("C15-feature-hash-infeatures-order", "two equal Features hash differently", {"kind": "kf_infeatures", **w2})
+    rep.add("identities", info_all)
+    return found
+
+
+def infeatures_witness() -> dict:
+    """two Features whose child_options[in_features] are equal frozensets of two Features with different iteration order"""
+    from mloda.core.abstract_plugins.components.feature import Feature
+    from mloda.core.abstract_plugins.components.options import Options
+    names = [f"n{i}" for i in range(300)]
+    pair = None
+    for x, y in itertools.combinations(names[:60], 2):
+        if [f.name.name for f in frozenset([Feature(x), Feature(y)])] != [f.name.name for f in frozenset([Feature(y), Feature(x)])]:
+            pair = (x, y)
+            break
+    if pair is None:
+        return {"pair": None}
+
+    def mk(rev: bool) -> Any:
+        fs = [Feature(pair[0]), Feature(pair[1])]
+        f = Feature("top")
+        f.child_options = Options({"in_features": frozenset(fs[::-1] if rev else fs)})
+        return f
+    a, b = mk(False), mk(True)
+    return {"pair": list(pair), "equal": bool(a == b), "hash_equal": hash(a) == hash(b), "set_size": len({a, b})}
+
+
+# ------------------------------------------------------------------------------------------------------------
 def run(rep: vlib.Reporter, tier: str, seed: int) -> None:
     rng = random.Random(seed * 7919 + 15)
     big = tier == "thorough"
@@ -464,6 +889,8 @@ def run(rep: vlib.Reporter, tier: str, seed: int) -> None:
     rep.proof(pr)
     found = False
     found |= check_ops(rep, rng, 50000 if big else 3000)
+    found |= check_values(rep, rng, 30000 if big else 3000)
+    found |= check_ident(rep, rng, 8000 if big else 1200)
     rep.add("rule", "TODO")
     if not pr.ok and not found:
         rep.finding("proof-broken", "Props/C15.v no longer checks",
